@@ -37,7 +37,11 @@ theorem step_lex {c : Cfg} {fs : FS} {cur p : Path} {x : Comp} (h : step c fs cu
     p = resolveStep cur x := by
   cases x with
   | rootDir => simp only [step, Except.ok.injEq] at h; simp [resolveStep, ← h]
-  | curDir => simp only [step, Except.ok.injEq] at h; simp [resolveStep, ← h]
+  | curDir =>
+    simp only [step] at h
+    split at h
+    · simp only [Except.ok.injEq] at h; simp [resolveStep, ← h]
+    · cases h
   | parentDir =>
     simp only [step] at h
     split at h
